@@ -105,6 +105,8 @@ func noEffectBeforeError(p *load.Program, r *kit.Report, rule string, f *ssa.Fun
 }
 
 func checkC08(p *load.Program, r *kit.Report) {
+	importRules(p, r, "C17", "a header that was removed from a branch must also leave its hash map, or later submissions are answered \"already known\" / find a parent that is gone", 2, nil, "SHRINK-SIBLING")
+	importRules(p, r, "C09", "parent lookup, duplicate test and the depth test all use the stored hash→height labels: a wrong label gives a wrong verdict", 11, nil, "HEIGHT-LABEL")
 	r.NotDecided = "that each verdict equals the reference model's for adversarial inputs; byte-equality of a later Save; behaviour over histories."
 	r.Rule("NO-EFFECT-BEFORE-ERROR", "in ProcessHeader no path leads from an effect on repository state (field writes of Repository/Branch/HeaderData on non-fresh objects, channel sends, calls to mutators; a fallible mutator's effects are attributed to the result edges that are not effect-free) to a return whose error is not provably nil", 12)
 	r.Rule("ORDER", "the refusal checks precede every effect: each effect point is dominated by the pass edge of the work, parent, duplicate, split, bits, invalid-list guards, and the new-branch arm by the depth guard", 4)
